@@ -411,7 +411,9 @@ def build_boundaries(spec: dict, volume):
         # the documented user path: BoundaryConfig -> boundary_objects_from_config (object names are the library's)
         from fdtdx.objects.boundaries.initialization import BoundaryConfig, boundary_objects_from_config
 
-        kw = {"bloch_vector": kvec} if any(f.get("kind") == "bloch" for f in faces.values()) else {}
+        # "bloch_vector_config": the vector as a user would hand it to BoundaryConfig - it may carry components along axes
+        # that are plain periodic (or walls), which must be ignored there
+        kw = {"bloch_vector": tuple(spec.get("bloch_vector_config", kvec))} if any(f.get("kind") == "bloch" for f in faces.values()) else {}
         for face in FACES:
             f = faces.get(face, {"kind": "none"})
             if f["kind"] == "none":
@@ -424,7 +426,13 @@ def build_boundaries(spec: dict, volume):
                     if k in f:
                         kw[f"{k}_{sfx}"] = f[k]
         bdict, cons = boundary_objects_from_config(BoundaryConfig(**kw), volume)
-        return list(bdict.values()), list(cons)
+        # give the objects the harness's own names (bnd_<face>), in the objects and in the constraints that refer to them
+        rename = {b.name: f"bnd_{face}" for face, b in bdict.items()}
+        objs = [b.aset("name", rename[b.name]) for b in bdict.values()]
+        import dataclasses as _dc
+
+        cons = [_dc.replace(c, object=rename.get(c.object, c.object)) for c in cons]  # constraints are frozen dataclasses
+        return objs, list(cons)
     for face in FACES:
         f = faces.get(face, {"kind": "none"})
         kind = f["kind"]
